@@ -14,6 +14,7 @@
 //	l3 behave <zone> <honest|nsauth|nschange|sfail>       what the (current) child says about itself
 //	l3 qcross <zone> <ttl> [cd]        a second question crosses the first one's referral for <zone>; the parent raises the TTL
 //	l3 qrace <zone> [cd]               sr.<zone> is asked while the zone's lease runs out (self-referral race)
+//	l3 lostprobe lease= ttl=           self-contained case: the minimised probe is lost, the un-minimised retry meets a long-TTL referral
 //	l3 slowval delay= ttl=             self-contained real-time case (slow validation of a referral: the lease is anchored at its observation)
 //	l3 inflight delay=                 self-contained real-time case (a lookup in flight at the old servers vs a resolution after the lease end)
 //	l3 slowref sec= delay= act=        self-contained real-time case (slow child referral, 1 s ancestor lease)
@@ -85,6 +86,7 @@ type inst struct {
 	mode      string
 	slowBelow string
 	slowType  uint16 // 0: any query type
+	dropMin   bool   // drop the minimised probes for this zone's children
 
 	refAt    time.Time     // real time this incarnation's referral was last handed out (server side)
 	refLease time.Duration // min(NS, DS) TTL of that referral, 12 h at most
@@ -302,6 +304,16 @@ func (s *scenario) addInst(idx, gen int, parent *inst, nsTTL, dsTTL uint32, sign
 // when) and the scripted child behaviours on an incarnation's server.
 func (s *scenario) hook(i *inst) {
 	i.srv.SetBehaviour(l3.Behaviour{
+		Drop: func(q dns.Question, tcp bool) bool {
+			// lostprobe: the MINIMISED probe for one of this zone's delegated children never gets an answer
+			i.mu.Lock()
+			defer i.mu.Unlock()
+			if !i.dropMin || q.Qtype != dns.TypeA {
+				return false
+			}
+			_, isKid := i.kids[lcn(q.Name)]
+			return isKid
+		},
 		Delay: func(q dns.Question, tcp bool) time.Duration {
 			// slowref: the FIRST referral for a name below slowBelow is slow (real time)
 			i.mu.Lock()
@@ -1265,6 +1277,40 @@ func execSlowVal(f []string) vlib.Res {
 	})
 }
 
+// execLostProbe (l3 lostprobe lease=<s> ttl=<s>): QNAME minimisation on; the minimised probe sdns
+// sends to the servers of vic.test. (short lease) for `deep.vic.test.` is lost, so the resolver
+// retries un-minimised and is then referred to deep.vic.test. with a long NS TTL. The retry is
+// the same descent: the deeper delegation still ends with vic.test.'s lease. Deterministic (a
+// dropped datagram, no timing judgement) but slow: the upstream timeout has to run out.
+func execLostProbe(f []string) vlib.Res {
+	m := kv(f)
+	lease, ttl := "5", "43200"
+	if v, ok := m["lease"]; ok {
+		lease = v
+	}
+	if v, ok := m["ttl"]; ok {
+		ttl = v
+	}
+	return twice(func() (string, string) {
+		execL3(strings.Fields("l3 new d=3 sec=0 ns=300," + lease + "," + ttl + " ds=300,300,300 sg=000 attl=300 neg=300 pf=0 qmin=5 oob=0"))
+		s := cur
+		v := s.current("vic.test.")
+		v.mu.Lock()
+		v.dropMin = true
+		v.mu.Unlock()
+		var impls []string
+		for _, st := range []string{"l3 q www.deep.vic.test. A", "l3 q long.deep.vic.test. A", "l3 withdraw vic.test.",
+			fmt.Sprintf("l3 end vic.test. %d", int(slack/time.Millisecond)+200), "l3 q www.deep.vic.test. A", "l3 q long.deep.vic.test. A do"} {
+			r := execL3(strings.Fields(st))
+			impls = append(impls, r.Impl)
+			if strings.HasPrefix(r.Oracle, "FAIL") && !strings.Contains(r.Oracle, "cd1-") {
+				return r.Oracle + " step=" + strings.Join(strings.Fields(st)[1:], "_"), strings.Join(impls, ";")
+			}
+		}
+		return "ok", strings.Join(impls, ";")
+	})
+}
+
 // execInflight (l3 inflight delay=<ms>): a lookup still in flight at the OLD servers of a
 // re-pointed zone must not be shared with a resolution that started after the lease end and
 // already follows the parent. Client A's question makes the old vic.test. server sit on the
@@ -1330,6 +1376,8 @@ func execL3(f []string) vlib.Res {
 		return execSlowVal(f)
 	case "inflight":
 		return execInflight(f)
+	case "lostprobe":
+		return execLostProbe(f)
 	}
 	s := cur
 	if s == nil {
